@@ -182,7 +182,8 @@ def expected_const(v):
 
 PARAM_INTS = [0, 1, 7, 2 ** 31 - 2, 2 ** 31 - 1, 2 ** 31, 2 ** 32 - 1, 2 ** 32, 1 << 40, -1, -5, -2 ** 31, -2 ** 31 - 1,
               -(1 << 40), 1 << 64]
-PARAM_STRS = ["", "x", "hello world", 'q"uote', "back\\slash", "nl\nline", "tab\there", "{brace}", " lead", "1'0", "[3:0]"]
+PARAM_STRS = ["", "x", "hello world", 'q"uote', "back\\slash", "nl\nline", "tab\there", "{brace}", " lead", "1'0", "[3:0]",
+              "Gr\u00f6\u00dfe", "\u65e5\u672c\u8a9e", "bell\x07", "\u00b5s \x7f", "\x01"]
 PARAM_FLOATS = [0.0, 1.5, -2.25, 1e300, 1e-7, 3.0]
 
 
